@@ -32,22 +32,35 @@ fn rid(r: &str) -> String { r.strip_prefix("reason-").map(|s| s.to_string()).unw
 fn ops_of(s: &str) -> Vec<String> { if s == "-" { vec![] } else { s.split(';').map(|x| x.to_string()).collect() } }
 
 fn spawn_waiter(tc: Arc<TransferControl>, credit: bool, len: u64) -> (mpsc::Receiver<String>, std::thread::JoinHandle<()>) {
+    spawn_waiter_for(tc, credit, len, FAR, false)
+}
+
+/// `timed`: the result is followed by `@<elapsed ms, hex>` measured around the wait call
+fn spawn_waiter_for(tc: Arc<TransferControl>, credit: bool, len: u64, far: Duration, timed: bool) -> (mpsc::Receiver<String>, std::thread::JoinHandle<()>) {
+    spawn_waiter_at(tc, credit, len, far, timed, None)
+}
+
+/// `gate`: the waiter enters its wait right after passing the barrier (the signaller is the other party)
+fn spawn_waiter_at(tc: Arc<TransferControl>, credit: bool, len: u64, far: Duration, timed: bool, gate: Option<Arc<Barrier>>) -> (mpsc::Receiver<String>, std::thread::JoinHandle<()>) {
     let (tx, rx) = mpsc::channel::<String>();
     let jh = std::thread::spawn(move || {
+        if let Some(g) = gate { g.wait(); }
+        let t0 = Instant::now();
         let r = if credit {
-            match tc.wait_for_credit(len, Instant::now() + FAR) {
+            match tc.wait_for_credit(len, t0 + far) {
                 Ok(()) => "granted".to_string(),
                 Err(CreditError::Timeout) => "timeout".to_string(),
                 Err(CreditError::Cancelled(r)) => format!("can:{}", rid(&r)),
             }
         } else {
-            match tc.wait_for_reconnect(FAR) {
+            match tc.wait_for_reconnect(far) {
                 ReconnectOutcome::ResumeReady(pr) => format!("ready:{}", h(pr.resume_at_offset)),
                 ReconnectOutcome::Cancelled(r) => format!("can:{}", rid(&r)),
                 ReconnectOutcome::Timeout => "timeout".to_string(),
             }
         };
-        let _ = tx.send(r);
+        let el = t0.elapsed().as_millis() as u64;
+        let _ = tx.send(if timed { format!("{r}@{}", h(el)) } else { r });
     });
     (rx, jh)
 }
@@ -138,8 +151,99 @@ fn run_sched(f: &std::collections::HashMap<String, String>) -> String {
     r.unwrap_or_else(|_| "crash=panic".into())
 }
 
+/// `storm=<rounds>`: one signaller applies the (single) op list as fast as it can, with busy
+/// pauses of 0..gap microseconds, while the waiter is parked or cycling through its
+/// check-and-park; repeated on a fresh control `rounds` times.  A wake-up lost between the
+/// waiter's check and its park leaves it parked although the last op made its condition true.
+fn run_storm(f: &std::collections::HashMap<String, String>) -> String {
+    let credit = f["kind"] == "credit";
+    let (len, win, cap) = (p(&f["len"]), p(&f["win"]), p(&f["cap"]));
+    let pre = ops_of(&f["pre"]);
+    let ops = ops_of(&f["t"]);
+    let rounds = p(&f["storm"]);
+    let gap = p(&f["gap"]);
+    let sd = p(&f["sd"]);
+    let r = guard(move || {
+        let mut rng = Rng::new(sd);
+        let mut first: Option<String> = None;
+        for round in 0..rounds {
+            let tc = TransferControl::with_replay_capacity(win, cap);
+            let mut reasons = Vec::new();
+            for op in &pre { apply(&tc, op, &mut reasons); }
+            // half of the rounds start the signaller together with the waiter's first check (a barrier
+            // and 0..40 us), the others with the waiter (most likely) parked
+            let gated = round % 2 == 0;
+            let gate = if gated { Some(Arc::new(Barrier::new(2))) } else { None };
+            let (rx, jh) = spawn_waiter_at(tc.clone(), credit, len, FAR, false, gate.clone());
+            match &gate { Some(g) => { g.wait(); spin_us(rng.below(40)); } None => spin_us(rng.below(400)) }
+            let tc2 = tc.clone(); let ops2 = ops.clone();
+            let mut r2 = Rng::new(rng.next());
+            let j = std::thread::spawn(move || {
+                let mut rs = Vec::new();
+                for op in &ops2 { if gap > 0 { spin_us(r2.below(gap + 1)); } apply(&tc2, op, &mut rs); }
+            });
+            if j.join().is_err() { return "crash=panic".to_string(); }
+            let result = match poll(&rx, Duration::from_secs(3)) { Ok(r) => r, Err(()) => return "crash=panic".to_string() };
+            let ended = finish(&tc, &rx, jh, result.is_some());
+            if !ended { return format!("final={} end=stuck round={}", result.unwrap_or_else(|| "P".into()), h(round)); }
+            match result {
+                None => return format!("final=P round={}", h(round)),
+                Some(r) => match &first {
+                    None => first = Some(r),
+                    Some(f0) if *f0 != r => return format!("final={} round={}", r, h(round)),
+                    _ => {}
+                },
+            }
+        }
+        format!("final={} rounds={}", first.unwrap_or_else(|| "P".into()), h(rounds))
+    });
+    r.unwrap_or_else(|_| "crash=panic".into())
+}
+
+fn spin_us(us: u64) {
+    if us == 0 { return; }
+    let t = Instant::now();
+    let d = Duration::from_micros(us);
+    while t.elapsed() < d { std::hint::spin_loop(); }
+}
+
+/// `kind2=tmo`: the waiter has a near deadline (`dl` ms) and the op list, applied with `gapms`
+/// between the ops, never makes its condition true (the driver re-checks that in the model):
+/// it must return Timeout, at its deadline - not at the first wake-up, and not only once the
+/// wake-ups stop.
+fn run_tmo(f: &std::collections::HashMap<String, String>) -> String {
+    let credit = f["kind"] == "credit";
+    let (len, win, cap) = (p(&f["len"]), p(&f["win"]), p(&f["cap"]));
+    let pre = ops_of(&f["pre"]);
+    let ops = ops_of(&f["t"]);
+    let dl = Duration::from_millis(p(&f["dl"]));
+    let gap = Duration::from_millis(p(&f["gapms"]));
+    let r = guard(move || {
+        let tc = TransferControl::with_replay_capacity(win, cap);
+        let mut reasons = Vec::new();
+        for op in &pre { apply(&tc, op, &mut reasons); }
+        let (rx, jh) = spawn_waiter_for(tc.clone(), credit, len, dl, true);
+        let tc2 = tc.clone(); let n = ops.len() as u32;
+        let j = std::thread::spawn(move || {
+            let mut rs = Vec::new();
+            for op in &ops { std::thread::sleep(gap); apply(&tc2, op, &mut rs); }
+        });
+        let result = match poll(&rx, dl + gap * n + Duration::from_secs(3)) { Ok(r) => r, Err(()) => return "crash=panic".to_string() };
+        if j.join().is_err() { return "crash=panic".to_string(); }
+        let ended = finish(&tc, &rx, jh, result.is_some());
+        let (res, el) = match &result {
+            Some(r) => { let (a, b) = r.split_once('@').unwrap(); (a.to_string(), b.to_string()) }
+            None => ("P".to_string(), "0".to_string()),
+        };
+        format!("final={} el={}{}", res, el, if ended { "" } else { " end=stuck" })
+    });
+    r.unwrap_or_else(|_| "crash=panic".into())
+}
+
 fn run_case(line: &str) -> String {
     let f = fields(line);
+    if f.contains_key("storm") { return run_storm(&f); }
+    if f.get("kind2").map(|s| s.as_str()) == Some("tmo") { return run_tmo(&f); }
     if f.get("kind2").map(|s| s.as_str()) == Some("sched") { run_sched(&f) } else { run_history(&f) }
 }
 
@@ -223,6 +327,10 @@ fn gen_histories(rng: &mut Rng, thorough: bool) -> Vec<String> {
     cases.push(line("credit", 1, m, 8, &format!("S:{}", h(m)), &format!("A:0:1;A:0:{}", h(m))));
     cases.push(line("credit", 2, 4, 8, "S:a", "A:0:7;A:0:8"));
     cases.push(line("credit", 2, 4, 8, "S:a", "A:0:ffffffffffffffff"));
+    // directed: a chunk larger than the whole window parks like any other until nothing is in flight
+    cases.push(line("credit", 9, 4, 8, "S:a", "A:0:2;A:0:9;A:0:a"));
+    cases.push(line("credit", 5, 4, 8, "S:1", "S:2;C:3"));
+    cases.push(line("credit", 100, 0, 8, "S:3", "A:0:1;V:1"));
     cases
 }
 
@@ -295,11 +403,54 @@ fn gen_scheds(rng: &mut Rng, n: usize) -> Vec<String> {
     cases
 }
 
+/// storms (a run of notifying operations that do not make the condition true, then one that
+/// does, applied back to back) and near-deadline waits under wake-ups that never satisfy them
+fn gen_storms(rng: &mut Rng, thorough: bool) -> Vec<String> {
+    let mut cases = Vec::new();
+    // sent 0x1000, window 4, len 2: acks below 0xffe free nothing but each one notifies
+    let pre = "P:0:4:0:aa;P:4:4:0:bb;P:8:2:1:cc;S:1000";
+    let ncases = if thorough { 160 } else { 32 };
+    for i in 0..ncases {
+        let credit = i % 2 == 0;
+        // short storms with pauses, and long ones applied in a tight loop (their total duration is
+        // of the order of the waiter's wake-up latency, so its re-checks land among the last acks)
+        let long = i % 4 >= 2;
+        let n = if long { rng.range(150, 1500) } else { rng.range(1, 48) };
+        let mut ops: Vec<String> = (1..=n).map(|a| format!("A:0:{}", h(a))).collect();
+        let fin = if credit {
+            match rng.below(4) { 0 => "A:0:1000", 1 => "A:0:ffe", 2 => "C:1", _ => "V:1" }
+        } else {
+            match rng.below(3) { 0 => "R:7:0:8", 1 => "R:9:0:a", _ => "C:2" }
+        };
+        ops.push(fin.to_string());
+        let gap = if long { *rng.pick(&[0u64, 0, 0, 1]) } else { *rng.pick(&[0u64, 2, 5, 10, 20, 40, 80]) };
+        cases.push(format!("kind2=sched kind={} len={} win=4 cap=8 pre={pre} t={} d=0 sd={} exp=ret storm={} gap={}",
+            if credit { "credit" } else { "reconnect" }, if credit { 2 } else { 0 }, ops.join(";"), h(rng.next() >> 16),
+            h(if thorough { 1000 } else { 300 }), h(gap)));
+    }
+    // near deadlines: wake-ups closer together than the deadline, lasting well beyond it
+    let tm: &[(u64, u64, u64)] = if thorough { &[(200, 60, 12), (300, 100, 9), (120, 50, 12), (250, 240, 4), (150, 10, 60)] } else { &[(200, 60, 12), (150, 100, 6)] };
+    for &(dl, gapms, n) in tm {
+        for credit in [true, false] {
+            let ops: Vec<String> = (1..=n).map(|a| if !credit && a % 3 == 0 { "R:7:1:8".to_string() } else { format!("A:0:{}", h(a)) }).collect();
+            cases.push(format!("kind2=tmo kind={} len={} win=4 cap=8 pre={pre} t={} dl={} gapms={}",
+                if credit { "credit" } else { "reconnect" }, if credit { 2 } else { 0 }, ops.join(";"), h(dl), h(gapms)));
+        }
+    }
+    // and with no wake-up at all
+    for credit in [true, false] {
+        cases.push(format!("kind2=tmo kind={} len={} win=4 cap=8 pre={pre} t=- dl={} gapms=0",
+            if credit { "credit" } else { "reconnect" }, if credit { 2 } else { 0 }, h(180)));
+    }
+    cases
+}
+
 fn main() {
     let cases = if no_gen() { vec![] } else {
         let mut rng = Rng::new(seed());
         let mut c = gen_histories(&mut rng, is_thorough());
         c.extend(gen_scheds(&mut rng, if is_thorough() { 10000 } else { 500 }));
+        c.extend(gen_storms(&mut rng, is_thorough()));
         c.into_iter().enumerate().map(|(i, c)| format!("i={i} {c}")).collect()
     };
     isolated_main(cases, run_case, Duration::from_secs(40));
